@@ -53,14 +53,14 @@ func (s *simds) Get(ctx context.Context, k ds.Key) ([]byte, error) {
 }
 
 type e3World struct {
-	r     *Run
-	d     *simds
-	inst  []*ks.Keystore
-	model map[string][]byte // id -> raw public key of the stored key
-	order []string
+	r      *Run
+	d      *simds
+	inst   []*ks.Keystore
+	model  map[string][]byte // id -> raw public key of the stored key
+	order  []string
 	idents map[string]*idp.Identity
-	ctx   context.Context
-	bulk  int
+	ctx    context.Context
+	bulk   int
 }
 
 func pubRaw(k crypto.PrivKey) []byte {
